@@ -331,6 +331,11 @@ def cases(draw, v3_weight=1):
         targets = draw(st.lists(oid, min_size=n, max_size=n, unique_by=tuple))
         tags = vs.V1_TAGS if proto["v"] == "1" else None
         case["set"] = [[t] + draw(vs.value(tags=tags, allow_null=False)) for t in targets]
+        if draw(st.integers(0, 3)) == 0:
+            # a TimeTicks value the caller builds from a timedelta (vworld.make_value does so for odd tick counts): tick counts
+            # whose hundredths are not exact in binary floating point
+            k = draw(st.sampled_from([29, 57, 113, 115, 229, 1019, 2 ** 31 + 1, 2 ** 32 - 1]))
+            case["set"][0] = [case["set"][0][0], vber.T_TICKS, vber.int_content(k).hex()]
     else:
         case["scalars"] = draw(st.lists(oid, min_size=0, max_size=3))
         case["repeaters"] = draw(st.lists(oid, min_size=0 if case["scalars"] else 1, max_size=3))
